@@ -224,7 +224,7 @@ def run_case(case, H):
 
 # ------------------------------------------------------------------ generation
 def shards(tier):
-    n, k = (2600, 32) if tier == 'quick' else (120000, 64)
+    n, k = (2600, 32) if tier == 'quick' else (36000, 64)
     return [{'n': c, 'i': i, 'k': 2 if tier == 'quick' else (3 if i % 4 == 0 else 2),
              'steps': 12 if tier == 'quick' else 22} for i, c in enumerate(harness.split(n, k))]
 
